@@ -220,6 +220,21 @@ CLAIMED['C20'] = dict(
     note=NOTE_COMMON + 'That every emitter routes every set iteration through a sorting helper is established by the differential, not by a theorem.',
     technique='Lean 4 proof (permutation-invariance of key sort) + cross-process differential over hash seeds and allocation patterns')
 
+CLAIMED['C18'] = dict(
+    text='Lean theorems, checked by the kernel over the whole tables as regenerated from rtllib/aes.py on every run: the '
+         'S-box equals the affine transform of the GF(2^8) inverse (FIPS-197 5.1.1) at all 256 entries, the inverse S-box '
+         'inverts it both ways, the six constant-multiplication tables equal GF(2^8) multiplication, rcon[1..10] = x^(i-1), '
+         'ShiftRows is the FIPS permutation under PyRTL\'s byte layout and InvShiftRows inverts it, the InvMixColumns and '
+         'MixColumns constant matrices multiply to the identity over GF(2^8). Oracle: independent references written from '
+         'the publications against the real circuits: AES-128 (Appendix C vector, extreme and random keys/blocks), '
+         'decryption inverts encryption, both state machines deliver the result when ready and hold it; xoroshiro128+, '
+         'the 127-bit LFSR (taps 126/125, leaping bitwidth steps) and Trivium (after 1152 warm-up bits) for bitwidths '
+         '1..256 and bits_per_cycle 1..64 with several requests separated by idle cycles. PARTIAL: the round structure, '
+         'key expansion and the PRNG state machines have no Lean model (oracle only).',
+    design='4 C18',
+    note=NOTE_COMMON + 'FIPS-197, xoroshiro128+, Trivium and the LFSR are transcribed by hand in the harness (AES also in Lean).',
+    technique='Lean 4 proof by kernel evaluation over complete tables (decide +kernel, no axioms) + reference-implementation oracle')
+
 NOT_YET = {}
 
 
